@@ -4,6 +4,7 @@ go 1.23
 
 require (
 	github.com/llir/ll v0.0.0-20220802205332-9207a04d0275
+	github.com/mewmew/float v0.0.0-20201204173432-505706aa38fa
 	golang.org/x/tools v0.29.0
 )
 
